@@ -33,10 +33,12 @@ pub mod thread {
     use super::*;
     #[verifier::external_body]
     pub fn current() -> Thread { unimplemented!() }
-    /// blocking primitive: never reachable from try_sync (C09); only by a holder that published WaitingForUnpark
+    /// blocking primitive: never reachable from try_sync (C09); only by a holder that published WaitingForUnpark and whose LAST look at the
+    /// state still saw WaitingForUnpark (a wake-up seen as Running or AwokenWhileRunning must end the wait, C06)
     #[verifier::external_body]
     pub fn park(Tracked(g): Tracked<&mut G>, Ghost(locks): Ghost<u64>)
         requires
+            old(g).q.parked,                                  // OBL C04,C06 park_only_while_still_waiting_for_unpark
             locks == 0,                                       // OBL C04,C10 no_lock_held_while_blocking
             !old(g).q.nonblocking,                            // OBL C09 nonblocking
         ensures *final(g) == *old(g),
